@@ -265,6 +265,25 @@ def rtScript (p : Runtime.Prog) (ops : List Json) : List Json :=
       let (st', v) := specVal st ((a[2]?).getD Json.null)
       ({ st' with ovServices := (s 1, v) :: st'.ovServices.filter (·.1 != s 1), shared := st'.shared.filter (·.1 != s 1) },
         out ++ [Json.mkObj [("ok", "overridden")]])
+    | "call" =>
+      -- a generated getter method: G / GInContext / MustG / MustGInContext (Must* only when declared)
+      let m := s 1
+      let hit := p.out.services.findSome? fun sv =>
+        if sv.getter = "" then none
+        else if m = sv.getter then some (sv.name, false, false)
+        else if m = sv.getter ++ "InContext" then some (sv.name, true, false)
+        else if sv.mustGetter && m = "Must" ++ sv.getter then some (sv.name, false, true)
+        else if sv.mustGetter && m = "Must" ++ sv.getter ++ "InContext" then some (sv.name, true, true)
+        else none
+      match hit with
+      | none => (st, out ++ [Json.mkObj [("nomethod", m)]])
+      | some (n, inCtx, must) =>
+        let bag := if inCtx then (st.ctxBags.lookup (s 2)).getD [] else []
+        let (st', bag', r) := Runtime.get F p st bag n
+        let st'' := if inCtx then { st' with ctxBags := (s 2, bag') :: st'.ctxBags.filter (·.1 != s 2) } else st'
+        match r, must with
+        | .error e, true => (st'', out ++ [Json.mkObj [("panic", e)]])
+        | r, _ => (st'', out ++ [rtResult st'' r])
     | "evallog" => (st, out ++ [Json.mkObj [("ok", strList st.evalLog)]])
     | "taggedorder" => (st, out ++ [Json.mkObj [("ok", strList (Runtime.taggedOrder p.out (s 1)))]])
     | o => (st, out ++ [Json.mkObj [("badop", o)]])) (({} : Runtime.St), [])).2
@@ -277,6 +296,11 @@ def handle (j : Json) : Json :=
     | .ok cs => Json.mkObj [("ok", Json.arr (cs.map charsJ).toArray)]
     | .error b => Json.mkObj [("err", "not closed token: " ++ Val.quoteStr (String.ofList b))]
   | "quote" => Json.mkObj [("ok", Val.quoteStr (jstr j "s"))]
+  | "linkerVersion" =>
+    let given := match j.getObjVal? "given" with
+      | .ok (.str g) => some g
+      | _ => none
+    Json.mkObj [("errs", strList (Semver.validateVersion (Semver.normalizeBuild (jstr j "linker")) given))]
   | "unquote" =>
     match GoQuote.unquote (jstr j "s").toList with
     | some v => Json.mkObj [("ok", String.ofList v)]
